@@ -1,5 +1,8 @@
-(* C10 — property theorems.  Only statements closed by `exact <lemma>` and the
-   Print Assumptions the check collects. *)
+(* C10 — property theorems.  Only statements closed by `exact <lemma>` (or a 1–3
+   line wrapper) and the Print Assumptions the check collects.
+   Notation from Proofs.v:  at_ x i = nth (Z.to_nat i) x 0 ;
+   front_pairs step x = combine (fst (fronts1 step x)) (snd (fronts1 step x)) ;
+   at2 x r c = x[r][c] ; binary l = every entry is 0 or 1. *)
 From Coq Require Import ZArith List Bool Lia Sorted.
 From IBL.lib Require Import PyInt.
 From IBL.C10 Require Import Model Bits Proofs.
@@ -17,9 +20,225 @@ Proof. exact split_word_bits_exhaustive. Qed.
 Print Assumptions C10_split_sync_bits_exhaustive.
 
 (* Structural: the same for EVERY integer (np.int16() keeps the low 16 bits,
-   Z.testbit is two's complement on negative numbers); every row has exactly
-   16 entries, each 0 or 1. *)
+   Z.testbit is two's complement on negative numbers). *)
 Theorem C10_split_sync_bits : forall v k, 0 <= k < 16 ->
   nth (Z.to_nat k) (split_word v) 0 = Z.b2z (Z.testbit v k).
 Proof. exact split_word_bits. Qed.
 Print Assumptions C10_split_sync_bits.
+
+(* one row per word; every row has exactly 16 entries, each 0 or 1 *)
+Theorem C10_split_sync_shape : forall tr,
+  length (split_sync tr) = length tr /\
+  forall row, In row (split_sync tr) -> length row = 16%nat /\ binary row.
+Proof. exact split_sync_shape. Qed.
+Print Assumptions C10_split_sync_shape.
+
+(* int16 <-> uint16: the signed and the unsigned reading of the same 16 bits
+   (and any integer congruent modulo 2^16) decode to the same row; for a signed
+   int16 value the row holds the bits of its two's complement pattern. *)
+Theorem C10_int16_uint16_view :
+  (forall v m, split_word (v + 65536 * m) = split_word v) /\
+  (forall v, split_word (v mod 65536) = split_word v) /\
+  (forall s k, -32768 <= s < 32768 -> 0 <= k < 16 ->
+     nth (Z.to_nat k) (split_word s) 0 = Z.b2z (Z.testbit (s mod 65536) k) /\
+     Z.testbit (s mod 65536) k = Z.testbit s k).
+Proof.
+  split; [exact split_word_periodic|]. split; [exact split_word_signed_unsigned|].
+  exact split_word_bits_exhaustive_signed.
+Qed.
+Print Assumptions C10_int16_uint16_view.
+
+(* ---- fronts / rises / falls on one trace ---------------------------- *)
+
+(* fronts(x, step), any list, any step: the indices are exactly the positions
+   i >= 1 with |x[i] - x[i-1]| >= step, strictly ascending; the j-th polarity is
+   x[i_j] - x[i_j - 1]. *)
+Theorem C10_fronts_spec : forall step x,
+  (forall i, In i (fst (fronts1 step x)) <->
+     1 <= i < Z.of_nat (length x) /\ step <= Z.abs (at_ x i - at_ x (i - 1))) /\
+  StronglySorted Z.lt (fst (fronts1 step x)) /\
+  length (snd (fronts1 step x)) = length (fst (fronts1 step x)) /\
+  (forall j, (j < length (fst (fronts1 step x)))%nat ->
+     let i := nth j (fst (fronts1 step x)) 0 in
+     nth j (snd (fronts1 step x)) 0 = at_ x i - at_ x (i - 1)).
+Proof.
+  intros step x. split; [intros i; apply in_fronts1_ind|]. split; [apply fronts1_sorted|].
+  split; [apply fronts1_lengths|apply fronts1_sign].
+Qed.
+Print Assumptions C10_fronts_spec.
+
+(* 0/1 trains, default step 1: a front at every change and only there;
+   polarity +1 exactly on 0 -> 1, -1 exactly on 1 -> 0. *)
+Theorem C10_fronts_ttl : forall x, binary x ->
+  (forall i, In i (fst (fronts1 1 x)) <-> 1 <= i < Z.of_nat (length x) /\ at_ x i <> at_ x (i - 1)) /\
+  (forall i s, In (i, s) (front_pairs 1 x) ->
+     (s = 1 /\ at_ x (i - 1) = 0 /\ at_ x i = 1) \/ (s = -1 /\ at_ x (i - 1) = 1 /\ at_ x i = 0)).
+Proof. exact fronts_ttl. Qed.
+Print Assumptions C10_fronts_ttl.
+
+(* rises(x, step) / falls(x, step) (falls = rises(-x, -step)), plain and analog=True *)
+Theorem C10_rises_falls_spec : forall s x i,
+  (In i (rises1 s false x) <-> 1 <= i < Z.of_nat (length x) /\ s <= at_ x i - at_ x (i - 1)) /\
+  (In i (falls1 s false x) <-> 1 <= i < Z.of_nat (length x) /\ at_ x i - at_ x (i - 1) <= s) /\
+  (In i (rises1 s true x) <-> 1 <= i < Z.of_nat (length x) /\ s < at_ x i /\ ~ s < at_ x (i - 1)) /\
+  (In i (falls1 s true x) <-> 1 <= i < Z.of_nat (length x) /\ at_ x i < s /\ ~ at_ x (i - 1) < s) /\
+  (forall a, StronglySorted Z.lt (rises1 s a x) /\ StronglySorted Z.lt (falls1 s a x)).
+Proof.
+  intros s x i. split; [apply in_rises1|]. split; [apply in_falls1|]. split; [apply in_rises1_analog|].
+  split; [apply in_falls1_analog|]. intros a. split; [apply rises1_sorted|apply falls1_sorted].
+Qed.
+Print Assumptions C10_rises_falls_spec.
+
+(* rises and falls are the two halves of fronts: for a positive step s,
+   rises(x, s) = the fronts with positive polarity, falls(x, -s) = those with
+   negative polarity, as lists. *)
+Theorem C10_rises_falls_halves : forall s x, 0 < s ->
+  rises1 s false x = map fst (filter (fun p => 0 <? snd p) (front_pairs s x)) /\
+  falls1 (- s) false x = map fst (filter (fun p => snd p <? 0) (front_pairs s x)).
+Proof. intros s x Hs. split; [now apply rises_is_positive_half|now apply falls_is_negative_half]. Qed.
+Print Assumptions C10_rises_falls_halves.
+
+(* ---- 2-D ------------------------------------------------------------ *)
+
+(* axis 1 (= the default axis -1): the result is, row after row, the fronts of
+   that row tagged with the row number — as a list, so order included. *)
+Theorem C10_fronts_2d_rows : forall step x, fronts2 1 step x = per_row_fronts 0 step x.
+Proof. exact fronts2_axis1. Qed.
+Print Assumptions C10_fronts_2d_rows.
+
+(* axis 0, rectangular input: (r, c, s) is returned iff r is a front of column c
+   with polarity s; spelled out on the entries as well. *)
+Theorem C10_fronts_2d_columns : forall step nc x r c s,
+  Forall (fun row => length row = nc) x ->
+  (In (r, c, s) (fronts2 0 step x) <->
+     0 <= c < Z.of_nat nc /\ In (r, s) (front_pairs step (column (Z.to_nat c) x))) /\
+  (In (r, c, s) (fronts2 0 step x) <->
+     1 <= r < Z.of_nat (length x) /\ 0 <= c < Z.of_nat nc /\
+     s = at2 x r c - at2 x (r - 1) c /\ step <= Z.abs s).
+Proof.
+  intros step nc x r c s H. split; [now apply fronts2_axis0_per_column|now apply in_fronts2_axis0].
+Qed.
+Print Assumptions C10_fronts_2d_columns.
+
+(* ---- end to end ------------------------------------------------------ *)
+
+(* decoding the word that encodes 16 line levels returns the levels; the word
+   fits the int16 sync channel *)
+Theorem C10_decode_encode : forall levels, length levels = 16%nat -> binary levels ->
+  split_word (encode_word levels) = levels /\ -32768 <= encode_word levels < 32768.
+Proof. intros l Hl Hb. split; [now apply decode_encode|apply encode_word_int16]. Qed.
+Print Assumptions C10_decode_encode.
+
+(* Any event trains on the 16 lines (line k: initial level `init`, strictly
+   increasing toggle times `evs` in [1, ns); lines with evs = [] are the lines
+   outside the chosen subset), written as int16 words, decoded with split_sync
+   and front-detected on line k: the indices are exactly evs, and the j-th
+   polarity is +1 when the line was low before the event, -1 when it was high
+   (the level after the event being the opposite). *)
+Theorem C10_ttl_end_to_end : forall ns lines k init evs,
+  length lines = 16%nat -> (k < 16)%nat -> nth k lines (0, []) = (init, evs) ->
+  StronglySorted Z.lt evs -> (forall e, In e evs -> 1 <= e < Z.of_nat ns) ->
+  fst (ttl_roundtrip ns lines k) = evs /\
+  length (snd (ttl_roundtrip ns lines k)) = length evs /\
+  forall j, (j < length evs)%nat ->
+    let e := nth j evs 0 in
+    nth j (snd (ttl_roundtrip ns lines k)) 0 = 1 - 2 * level init evs (e - 1) /\
+    level init evs e = 1 - level init evs (e - 1).
+Proof. exact ttl_end_to_end. Qed.
+Print Assumptions C10_ttl_end_to_end.
+
+(* ---- read_sync ------------------------------------------------------- *)
+
+(* One sync word per sample (every SpikeGLX imec file; nidq with one digital
+   word), rectangular raw data: read_sync returns one row per selected sample,
+   in order; each row is the 16 decoded lines of that sample's word (last
+   column) followed by the thresholded analog sync channels. *)
+Theorem C10_sync_layout : forall typ ntr c0 c1 c2 c3 start stop one thr gain floors raw,
+  nsync_of typ c0 c1 c2 c3 = 1 -> 1 <= ntr ->
+  (forall r, In r raw -> Z.of_nat (length r) = ntr) ->
+  (forall i, In i (analog_indices typ c0 c1 c2 c3) -> 0 <= i < ntr) ->
+  (floors = None \/ slice_rows start stop raw <> [] \/ analog_indices typ c0 c1 c2 c3 = []) ->
+  read_sync typ ntr c0 c1 c2 c3 start stop one thr gain floors raw =
+    Some (map (fun r => split_word (nth (Z.to_nat (ntr - 1)) r 0)
+                        ++ digitise_row one thr gain floors (analog_cols typ c0 c1 c2 c3 r))
+              (slice_rows start stop raw)) /\
+  length (slice_rows start stop raw) =
+    Z.to_nat (snd (slice_first_count start stop (Z.of_nat (length raw)))) /\
+  (forall j, (j < length (slice_rows start stop raw))%nat ->
+     nth j (slice_rows start stop raw) [] =
+     nth (Z.to_nat (fst (slice_first_count start stop (Z.of_nat (length raw)))) + j) raw []) /\
+  analog_indices typ c0 c1 c2 c3 =
+    (if typ =? 1 then map (fun i => c0 + c1 + Z.of_nat i) (seq 0 (Z.to_nat c2)) else []).
+Proof.
+  intros. split; [now apply read_sync_layout|]. split; [apply slice_rows_length|].
+  split; [intros j Hj; now apply slice_rows_nth|apply analog_indices_spec].
+Qed.
+Print Assumptions C10_sync_layout.
+
+(* the analog part: entry k is the thresholded value of analog channel k; for
+   a positive threshold it is 1 iff (sample*gain - floor) >= threshold, else 0;
+   always 0 or 1; for a threshold <= 0 it is constantly 1 (the zeros written
+   by the first assignment pass the second test). *)
+Theorem C10_analog_threshold : forall one thr gain floors vals k fl v,
+  0 < one ->
+  ((k < length vals)%nat ->
+     nth k (digitise_row one thr gain floors vals) 0 =
+     digitise one thr (floor_at floors k) (nth k vals 0 * gain)) /\
+  length (digitise_row one thr gain floors vals) = length vals /\
+  (0 < thr -> digitise one thr fl v = if thr <=? v - fl then 1 else 0) /\
+  (thr <= 0 -> digitise one thr fl v = 1) /\
+  (digitise one thr fl v = 0 \/ digitise one thr fl v = 1).
+Proof.
+  intros one thr gain floors vals k fl v Ho.
+  split; [apply digitise_row_nth|]. split; [apply digitise_row_length|].
+  split; [now apply digitise_spec|]. split; [now apply digitise_nonpos_thr|now apply digitise_binary].
+Qed.
+Print Assumptions C10_analog_threshold.
+
+(* Outside that domain the faithful model does NOT return one row per sample
+   (confirmed on the real code, see harness/pC10.notes.md):
+   (a) two digital words per sample: exception;
+   (b) analog channels but no digital word: exception;
+   (c) empty selection with analog channels and the percentile floor: exception. *)
+Theorem C10_sync_layout_refuted :
+  (exists raw, read_sync 1 3 0 0 1 2 0 2 1024 1200 1 None raw = None /\ length raw = 2%nat) /\
+  (exists raw, read_sync 1 2 1 0 1 0 0 2 1024 1200 1 None raw = None /\ length raw = 2%nat) /\
+  (exists raw, read_sync 1 2 0 0 1 1 1 1 1024 1200 1 (Some [0]) raw = None /\ length raw = 2%nat
+               /\ read_sync 1 2 0 0 1 1 1 1 1024 1200 1 None raw = Some []).
+Proof.
+  split; [exists [[5; 1; 2]; [6; 3; 4]]; vm_compute; auto|].
+  split; [exists [[5; 1]; [6; 3]]; vm_compute; auto|].
+  exists [[5; 1]; [6; 3]]. vm_compute. auto.
+Qed.
+Print Assumptions C10_sync_layout_refuted.
+
+(* ---- non-vacuity ------------------------------------------------------ *)
+
+Example C10_example_words :
+  split_sync [1; -32768; 40000 - 65536; 0x5555] =
+  [[1;0;0;0;0;0;0;0;0;0;0;0;0;0;0;0]; [0;0;0;0;0;0;0;0;0;0;0;0;0;0;0;1];
+   [0;0;0;0;0;0;1;0;0;0;1;1;1;0;0;1]; [1;0;1;0;1;0;1;0;1;0;1;0;1;0;1;0]].
+Proof. vm_compute. reflexivity. Qed.
+
+Example C10_example_fronts :
+  fronts1 1 [0; 0; 1; 1; 0; 1] = ([2; 4; 5], [1; -1; 1]) /\
+  rises1 1 false [0; 0; 1; 1; 0; 1] = [2; 5] /\ falls1 (-1) false [0; 0; 1; 1; 0; 1] = [4] /\
+  fronts2 0 1 [[0; 0; 1]; [1; 0; 1]; [0; 0; 0]] = [(1, 0, 1); (2, 0, -1); (2, 2, -1)] /\
+  fronts2 1 1 [[0; 0; 1]; [1; 0; 1]; [0; 0; 0]] = [(0, 2, 1); (1, 1, -1); (1, 2, 1)].
+Proof. vm_compute. repeat split. Qed.
+
+(* the hypotheses of the end-to-end theorem are met by a concrete recording:
+   line 0 starts low and toggles at 1 and 3, line 15 starts high and toggles at 4 *)
+Example C10_example_ttl :
+  let lines := [(0, [1; 3])] ++ repeat (0, []) 14 ++ [(1, [4])] in
+  length lines = 16%nat /\
+  map encode_word (render 6 lines) = [-32768; -32767; -32767; -32768; 0; 0] /\
+  ttl_roundtrip 6 lines 0 = ([1; 3], [1; -1]) /\ ttl_roundtrip 6 lines 15 = ([4], [-1]) /\
+  ttl_roundtrip 6 lines 7 = ([], []).
+Proof. vm_compute. repeat split. Qed.
+
+Example C10_example_read_sync :
+  read_sync 1 3 1 0 1 1 0 10000 1024 1200 1 (Some [100]) [[7; 100; 1]; [7; 1300; 2]; [7; 1299; -1]]
+  = Some [[1;0;0;0;0;0;0;0;0;0;0;0;0;0;0;0; 0]; [0;1;0;0;0;0;0;0;0;0;0;0;0;0;0;0; 1];
+          [1;1;1;1;1;1;1;1;1;1;1;1;1;1;1;1; 0]].
+Proof. vm_compute. reflexivity. Qed.
